@@ -5,6 +5,7 @@ import (
 	"errors"
 	"fmt"
 	"io"
+	"math"
 	"net"
 	"strconv"
 	"strings"
@@ -89,7 +90,8 @@ func readPacket(r io.Reader) (net.Addr, byte, error) {
 	return addr, fwdType, nil
 }
 
-// toBytes writes the PF information to send them to the server
+// toBytes writes the PF information to send them to the server. It returns nil
+// if the address cannot be encoded.
 func toBytes(f net.Addr, fwdType int) []byte {
 	var netType byte
 	var addrStr string
@@ -109,6 +111,13 @@ func toBytes(f net.Addr, fwdType int) []byte {
 
 	default:
 		logrus.Error("Unknown address type")
+		return nil
+	}
+
+	// The address length and the forwarding type are encoded in two bytes and
+	// one byte; refuse what would be truncated.
+	if len(addrStr) > math.MaxUint16 || fwdType < 0 || fwdType > math.MaxUint8 {
+		logrus.Error("PF: address or forwarding type cannot be encoded")
 		return nil
 	}
 
@@ -339,6 +348,9 @@ func StartPFClient(forward *Forward, muxer *tubes.Muxer, pfType int) {
 	}
 
 	byteAddr := toBytes(addr, pfType)
+	if byteAddr == nil {
+		return
+	}
 	_, err = pfControlTube.Write(byteAddr)
 	if err != nil {
 		logrus.Errorf("PF: Can't write in the PF control tube. %v", err)
